@@ -8,7 +8,7 @@ from tree import load_history
 PID = "C16"
 HERE = os.path.dirname(os.path.abspath(__file__))
 DRIVER = os.path.join(HERE, "drive_c16.py")
-ARGS = ("op", "lab", "col", "v", "pos", "cells", "rows", "old", "new", "a", "b", "ids")
+ARGS = ("op", "lab", "col", "v", "pos", "cells", "rows", "old", "new", "map", "a", "b", "ids")
 
 
 def short(h):
